@@ -241,10 +241,12 @@ func init() {
 			{Pkg: "jpeg2000/colorspace", Fn: "VerifC20RCT", Label: "rct", Desc: "RCT exactly invertible (all values)", Bounds: [2]string{"|v| <= 2^28", "same"}},
 		}})
 	reg(Check{Property: "C05",
-		Assumptions: []string{"Rate, TargetRatio and ladder values come from representative concrete sets (floats derived from symbolic integers cannot be branched on); NumLevels, NumLayers, progression order are symbolic", "NOT covered: the PCRD layer allocation itself and the 'final layer receives all remaining passes' bookkeeping inside the encoder; byte-exact round trips under rate targets"},
+		Assumptions: []string{"Rate, TargetRatio and ladder values come from representative concrete sets (floats derived from symbolic integers cannot be branched on); NumLevels, NumLayers, progression order are symbolic", "the PCRD layer allocation and final-layer bookkeeping are exercised only on the fixed frames of VerifC05Codec (enumerative over parameter objects), not for arbitrary contents"},
 		Harnesses: []Harness{
 			{Pkg: "jpeg2000/lossless", Fn: "VerifC05Params", Desc: "Validate + configureLosslessEncodeParams for every admitted parameter object: reversible path kept, levels 0..6, >= 1 layer, and a rate target only together with the final-lossless-layer switch and >= 2 layers (explicit ladders end with rate 0)",
 				Bounds: [2]string{"9 rates x 4 ratios x 4 ladders (one symbolic) x 4 bit-depth pairs x symbolic levels/layers/progression", "same"}},
+			{Pkg: "jpeg2000/lossless", Fn: "VerifC05Codec", Desc: "the Lossless-Only codec end to end over admitted parameter objects (Rate x TargetRatio x NumLayers x PCRD switch x AppendLosslessLayer x levels x progression order) on fixed noise / ramp frames (16/11-bit grey, 8-bit RGB, 1-pixel-wide, tiny): Decode(Encode(frame)) == frame; the rate-distortion allocation, packet-encoder state and final-layer bookkeeping run for real (one path per parameter object)",
+				Bounds: [2]string{"2 frames (29x44 16/11-bit, 33x42 RGB), layers {1,2,3}, default levels", "5 frames, layers {1,2,3,6,8}, levels {5,1,0}"}, Params: [2]map[string]int64{P("nimg", 2, "nlayers", 3, "nlevels", 1), P("nimg", 5, "nlayers", 5, "nlevels", 3)}, Enumerative: true, MaxSteps: 4_000_000_000, BudgetS: [2]int{600, 3000}},
 		}})
 	reg(Check{Property: "C19",
 		Assumptions: []string{j2kEnum, "NOT covered: tiles with decomposition levels beyond 1, multiple layers / global rate allocation over tiles, images beyond the stated sizes"},
@@ -275,18 +277,25 @@ func init() {
 		Assumptions: []string{"the HT block coder branches on every coefficient bit: sample values are enumerated path by path (enumerative), so only tiny frames are reached", "NOT covered: frames beyond the stated sizes, 16-bit containers, code-block sizes and explicit decomposition depths other than the codec defaults, the third-party OpenJPH/fo-dicom fixtures (the decoder's agreement with foreign streams is not decided)"},
 		Harnesses: []Harness{
 			{Pkg: "internal/zzc10", Fn: "VerifC06Codec", Desc: "HTJ2K Lossless (.201) and Lossless RPCL (.202) codecs, Encode -> Decode on tiny frames with symbolic samples (incl. 1-pixel-wide and 1-pixel-high frames whose decomposition depth is clamped to 0): decoded bytes equal the source",
-				Bounds: [2]string{"1x1, 2x1, 1x2, 2x2 at BitsStored 2 (all values)", "+ 1x1x3, 3x1, 1x3, 3x2; BitsStored 2 and 8 (8-bit: samples from {0,1,254,255})"}, Params: [2]map[string]int64{P("ngeom", 4, "nP", 1), P("ngeom", 8, "nP", 2)}, Enumerative: true, MaxSteps: 900_000_000, BudgetS: [2]int{600, 3000}},
+				Bounds: [2]string{"1x1 frames: BitsStored 2 (all values) and 8 (values 0,1,254,255); .201 and .202", "+ 2x1 within the wall budget (a 2x1 frame did not finish in 10 minutes when probed: reported under not_discharged when the budget is hit)"}, Params: [2]map[string]int64{P("ngeom", 1, "nP", 2), P("ngeom", 2, "nP", 2)}, Enumerative: true, MaxSteps: 900_000_000, BudgetS: [2]int{600, 3000}},
 		}})
 	reg(Check{Property: "C11",
-		Assumptions: []string{"STRUCTURE ONLY: the numeric per-sample bound of C11 (DCT/IDCT accuracy, colour rounding) is NOT decided - probed and out of reach (DESIGN.md section 4 C11); decided here is that the tables in the stream are the tables that quantised, in the order the decoder reads them, and that partial blocks are edge-replicated"},
+		Assumptions: []string{"the numeric per-sample bound of C11 for ARBITRARY contents (DCT/IDCT accuracy, colour rounding) is NOT decided - probed and out of reach (DESIGN.md section 9.6); decided are the table structure (tables in the stream are the tables that quantised, T.81 zig-zag order, parser recovers them, edge replication) for all values, and the bound itself only on the fixed contents of the two round-trip harnesses"},
 		Harnesses: []Harness{
 			{Pkg: "jpeg/baseline", Fn: "VerifC11Tables", Desc: "every quality 1..100: scaled tables in 1..255; writeDQT bytes == tables in zig-zag order; parseDQT recovers them; ZigZag permutation/Unzig inverse (concrete enumeration over quality)", Bounds: [2]string{"quality 1..100, 1 and 3 components", "same"}, Enumerative: true},
+			{Pkg: "jpeg/baseline", Fn: "VerifC11RoundTrip", Desc: "baseline Encode -> Decode on fixed contents (noise, Nyquist checkerboard of the extremes, impulses): the matching decoder accepts the stream, geometry equal, every sample within the bound the stream's own DQT tables imply (+2 grey, +5 per RGB channel); sizes with every partial-block class, 1 and 3 components, several qualities (one path per configuration)",
+				Bounds: [2]string{"4 sizes x {100,75} x 3 contents x {1,3} components", "7 sizes x {100,75,97,50,1}"}, Params: [2]map[string]int64{P("nsize", 4, "nq", 2), P("nsize", 7, "nq", 5)}, Enumerative: true, MaxSteps: 2_000_000_000},
+			{Pkg: "jpeg/extended", Fn: "VerifC11RoundTrip12", Desc: "the same for the 12-bit extended coder (one component): contents incl. a 0/4095 checkerboard and the single DCT basis function (7,7) (zero runs of 16 and more: ZRL)",
+				Bounds: [2]string{"3 sizes x {100,85} x 4 contents", "5 sizes x {100,85,95,50}"}, Params: [2]map[string]int64{P("nsize", 3, "nq", 2), P("nsize", 5, "nq", 4)}, Enumerative: true, MaxSteps: 2_000_000_000},
 			{Pkg: "jpeg/baseline", Fn: "VerifC11ParseDQT", Desc: "parseDQT on 64 symbolic entries, 8- and 16-bit precision, destinations 0..3: entry k lands at natural position ZigZag[k]", Bounds: [2]string{"all entry values", "same"}},
 			{Pkg: "jpeg/baseline", Fn: "VerifC11Padding", Desc: "rgbToYCbCr pads a partial block by replicating the edge pixel (symbolic pixel)", Bounds: [2]string{"1x1 image", "same"}},
 		}})
 	reg(Check{Property: "C15",
-		Assumptions: []string{"image/jpeg.Decode is replaced (engine only) by its documented contract: an *image.Gray / *image.YCbCr (4:4:4) over Rect(0,0,w,h) with arbitrary Stride >= width and symbolic planes; natively the real image/jpeg decodes the library encoder's stream", "NOT covered: numeric agreement with image/jpeg within 2 (6) levels, the baseline decoder's block addressing for sub-sampled streams, restart intervals"},
+		Assumptions: []string{"image/jpeg.Decode is replaced (engine only) by its documented contract: an *image.Gray / *image.YCbCr (4:4:4) over Rect(0,0,w,h) with arbitrary Stride >= width and symbolic planes; natively the real image/jpeg decodes the library encoder's stream", "NOT covered: numeric agreement with image/jpeg within 2 (6) levels, chroma up-sampling index maps, restart intervals"},
 		Harnesses: []Harness{
+			{Pkg: "jpeg/baseline", Fn: "VerifC11Tables", Label: "tables-and-scan-order", Desc: "interoperability of the table layer: ZigZag is exactly the T.81 Figure A.6 scan order (generated independently), Unzig its inverse, DQT bytes == the quantiser's tables in that order, parser recovers them (quality enumerated)", Bounds: [2]string{"quality 1..100", "same"}, Enumerative: true},
+			{Pkg: "jpeg/baseline", Fn: "VerifC15BlockAddressing", Desc: "baseline decoder block storage (real parseSOF) against the block coordinates decodeScan generates, MCU and block indices symbolic: every block of every MCU has its own 64-sample slot inside the component buffer, for luma sampling factors 1..2 (thorough 1..4) and image sizes from {1,7,8,9,16,17,24,25,33}^2",
+				Bounds: [2]string{"6 sizes per axis, factors 1..2", "9 sizes per axis, factors 1..4"}, Params: [2]map[string]int64{P("ndims", 6, "maxF", 2), P("ndims", 9, "maxF", 4)}},
 			{Pkg: "jpeg/extended", Fn: "VerifC15DecodeSimple", Desc: "DecodeSimple repacking: result has width x height x components tightly packed samples and sample (x,y) is the image's sample at (x,y) for every stride padding 0..2", Bounds: [2]string{"w <= 3, h <= 2, grey and colour", "w <= 9"}, Params: [2]map[string]int64{P("maxW", 3), P("maxW", 9)}},
 		}})
 }
